@@ -14,7 +14,7 @@
     state after SOME schedule (list of [Run i] / [Tick]) of SOME population, so every theorem holds for all
     numbers of concurrent users, all interleavings of reply / timeout / death / Close / PipeTo, all timeouts.
     Other Asks of the same system interact with this one only through the registry under other paths (M7: the
-    agent path contains a fresh uuid - side condition [prog_ok]); they are the [PForeignReg]/[PForeignUnreg]/
+    agent path contains a fresh uuid - side condition [prog_ok], named [M7_agent_path_fresh]); they are the [PForeignReg]/[PForeignUnreg]/
     [PReply p] (p <> fpath) threads.
     Time: [now] advanced by [Tick]; the timer's fire step is enabled only when now >= armed_at + timeout (M6).
     The model is tied to the real code by lock-step replay (bin/check C04).
@@ -129,22 +129,36 @@ Proof. exact (fun H => i_tells s (reachable_inv s H) x r). Qed.
 
 (** ============================ (5) C04_reply_routing ============================ *)
 
-(** the registry maps the future's path to this future and no other path to it (M7 = [prog_ok]) *)
-Theorem C04_reply_routing_registry s q id :
-  reachable s -> rlookup q (reg s) = Some id -> (q = fpath <-> id = fid).
-Proof. exact (fun H => i_route s (reachable_inv s H) q id). Qed.
+(** These theorems rest on assumption M7, named explicitly as the hypothesis [M7_agent_path_fresh] (FutSpec.v): the
+    agent path of a request is unique among all requests of ALL incarnations of ALL actors. The code obtains it
+    from uuid.NewString(); a scheme that is unique only within one incarnation of the asker (a per-actor counter)
+    violates it - [C04_reply_routing_needs_M7] below - and is caught on the implementation by the name-reuse
+    scenarios of the real-system component (monitor reply-misrouted). *)
+
+(** the registry maps the future's path to this future and no other path to it *)
+Theorem C04_reply_routing_registry timeout progs s q id :
+  M7_agent_path_fresh progs -> reach timeout progs s ->
+  rlookup q (reg s) = Some id -> (q = fpath <-> id = fid).
+Proof. exact (fun Hok Hr => i_route s (reach_inv timeout progs s Hok Hr) q id). Qed.
 
 (** every reply ever sent: one addressed to path q was delivered to what was registered under q - to this
     future only if q is its path, and a reply to its path never to anybody else (at worst to dead letters) *)
 Theorem C04_reply_routing_log timeout progs s q v d id :
-  forallb prog_ok progs = true -> reach timeout progs s ->
+  M7_agent_path_fresh progs -> reach timeout progs s ->
   In (q, v, d) (routed s) -> d = Some id -> (q = fpath <-> id = fid).
 Proof. exact (fun Hok Hr => o_routed progs s (reach_inv2 progs timeout s Hok Hr) q v d id). Qed.
 
-(** the message a future holds was replied to its own path *)
+(** the message a future holds is a reply to ITS request (a [PReply fpath] thread), never the reply to another one *)
 Theorem C04_reply_routing_value timeout progs s m :
-  forallb prog_ok progs = true -> reach timeout progs s -> msg s = Some m -> In (PReply fpath (VMsg m)) progs.
+  M7_agent_path_fresh progs -> reach timeout progs s -> msg s = Some m -> In (PReply fpath (VMsg m)) progs.
 Proof. exact (reply_value_addressed timeout progs s m). Qed.
+
+(** the hypothesis is needed: if the future is also reachable under another request's path (7), the reply to that
+    other request (9) completes it *)
+Theorem C04_reply_routing_needs_M7 :
+  exists progs sched m,
+    ~ M7_agent_path_fresh progs /\ msg (run sched (init 0 progs)) = Some m /\ ~ In (PReply fpath (VMsg m)) progs.
+Proof. exact routing_needs_M7. Qed.
 
 (** ============================ the tie ============================ *)
 
@@ -233,4 +247,5 @@ Print Assumptions C04_forwarded_value.
 Print Assumptions C04_reply_routing_registry.
 Print Assumptions C04_reply_routing_log.
 Print Assumptions C04_reply_routing_value.
+Print Assumptions C04_reply_routing_needs_M7.
 Print Assumptions C04_replay_reachable.
